@@ -19,6 +19,17 @@ CHECKS = {
         ref="6/C12"),
 }
 
+CHECKS["C06"] = dict(
+    text="Two real transit Connections are negotiated through the real handshake code; the sender's real send_record output is delivered to the real "
+         "receiver. z3 discharges (a) two-chunk equivalence on delivered records and the full parser state for honest records followed by arbitrary "
+         "symbolic bytes at every cut (=> any chunking), and (b) for nine manipulation kinds (flip of any byte to any value, delete, duplicate, swap, "
+         "replay, truncate, inject, reflect, extend) at every position: only the intact prefix is surfaced, the connection is dropped (or stalls with "
+         "nothing delivered when a length prefix was enlarged/stream truncated), nothing is delivered afterwards, pending reads/consumer Deferreds fail; "
+         "both directions, receive_record and consumer modes; send/receive keys pair up across the ends and differ per direction.",
+    note="NaCl SecretBox replaced by the ideal AEAD env/box.py in symbolic runs (counterexamples are replayed with the real SecretBox first); "
+         "int(hexlify(b),16) as linear arithmetic; record sizes small (0..3 bytes), 64KiB+ records outside the claim; symrun + loader + z3 trusted.",
+    ref="6/C06")
+
 NOT_YET = {}
 
 NA = {}
